@@ -63,6 +63,8 @@ def gen_value(r, form, quote):
         return r.choice(["\\w+\\(\\)", "f\\(x\\)", "a\\)b"])     # backslash-escaped parentheses are legal inside a (...) title
     for _ in range(20):
         v = "".join(r.choice(QCHARS) for _ in range(r.randint(0, 4)))
+        if r.random() < 0.03:
+            v = v + "long-" * r.choice([60, 1000, 14000])      # values of 300 / 5,000 / 70,000 bytes
         if quote in v:
             continue
         if any(bad in v for bad in form.forbid):
@@ -79,7 +81,7 @@ def gen_value(r, form, quote):
 
 def gen_tag(r, form, multiline_ok):
     """Returns (source text, expected attribute dict, features)."""
-    n = r.choice([0, 1, 1, 2, 2, 3, 4, 6])
+    n = r.choice([0, 1, 1, 2, 2, 3, 4, 6, 6, 12, 40])
     feats = set()
 
     def ws(min1=True):
